@@ -14,7 +14,7 @@ use std::collections::{BTreeSet, HashMap, HashSet};
 pub fn meta() -> Meta {
     Meta {
         id: "C09",
-        rule: "graph extraction: all 512 micro-addresses x 256 instruction-register values x 16 flag nibbles x 6 ALU condition outcomes (carry x {zero, negative, neither}) x pending key interrupt are forced on the real machine and one real clock edge is executed (at opcode-loading words the loaded byte ranges over all 256 values instead); the recorded successors form the control-flow graph on which reachability from reset and from every fetch, zero words, cycles, completion and routine containment are decided for every first byte and every (first, second) byte pair; MUL and DIV are run concretely for all 65 536 operand pairs. distinct_nontrivial counts distinct control-graph nodes (micro-address, IR) reachable from a fetch",
+        rule: "graph extraction: all 512 micro-addresses x 256 instruction-register values x 16 flag nibbles x 6 ALU condition outcomes (carry x {zero, negative, neither}) x pending key interrupt are forced on the real machine and one real clock edge is executed (at opcode-loading words the loaded byte ranges over all 256 values instead); the recorded successors form the control-flow graph on which reachability from reset (one start node, required to be the same after a CPU reset, a master reset and a program load from about 19 000 forced control states) and from every fetch, zero words, cycles, completion and routine containment are decided for every first byte and every (first, second) byte pair; MUL and DIV are run concretely for all 65 536 operand pairs. distinct_nontrivial counts distinct control-graph nodes (micro-address, IR) reachable from a fetch",
         exhaustive: true,
         assumptions: vec![
             "only the successor function is abstracted (flags, ALU conditions and interrupts as free inputs); data-driven loop exits are checked concretely",
@@ -305,18 +305,34 @@ pub fn run(ctx: &Ctx) -> Report {
     }
     // from reset: whatever the control state was, a CPU reset must lead to one start node
     let mut reset_nodes: BTreeSet<Node> = BTreeSet::new();
+    let mut master_nodes: BTreeSet<Node> = BTreeSet::new();
     for a in (0..512usize).step_by(7) {
         for ir in 0..=255u8 {
             let mut m = template.clone();
             m.raw_mut().verif_force_control(a, ir, 0x80, true, true, ir);
+            // every kind of reset the machine has: CPU reset, master reset, loading a program
+            let mut mm = m.clone();
+            let mut ml = m.clone();
             m.cpu_reset();
             let s = m.verif_snapshot();
             reset_nodes.insert((s.micro_address as u16, s.instruction_register));
+            mm.master_reset();
+            let s = mm.verif_snapshot();
+            master_nodes.insert((s.micro_address as u16, s.instruction_register));
+            if ir % 16 == 0 {
+                ml.load(emulator_2a_lib::compiler::ByteCode { lines: vec![], stacksize: emulator_2a_lib::parser::Stacksize::_16, programsize: emulator_2a_lib::parser::Programsize::Auto });
+                let s = ml.verif_snapshot();
+                master_nodes.insert((s.micro_address as u16, s.instruction_register));
+            }
         }
     }
     rep.count("reset_probes", 74 * 256);
+    rep.count("master_reset_and_load_probes", 74 * 256 + 74 * 16);
     if reset_nodes.len() != 1 {
         rep.violate("C09:reset-state-depends-on-history", format!("after a CPU reset the sequencer is in one of {} different control states: {:?}", reset_nodes.len(), reset_nodes.iter().take(6).collect::<Vec<_>>()), obj![("from", "reset")]);
+    }
+    if master_nodes != reset_nodes {
+        rep.violate("C09:master-reset-state-depends-on-history", format!("after a master reset or a program load the sequencer is in one of {} control states {:?}, a CPU reset leads to {:?}", master_nodes.len(), master_nodes.iter().take(6).collect::<Vec<_>>(), reset_nodes.iter().take(3).collect::<Vec<_>>()), obj![("from", "reset")]);
     }
     {
         let start: Vec<Node> = reset_nodes.iter().cloned().collect();
